@@ -645,21 +645,22 @@ def scan_trusted(text):
 
 
 # ---------------------------------------------------------------- building the real rlibs
-def build_rlibs(log=None):
-    """cargo +1.98.1 build -p revm from /repo's working tree into /verif/build/target."""
+def build_rlibs(log=None, features=""):
+    """cargo +1.98.1 build -p revm [--features f] from /repo's working tree into /verif/build/target[-f]."""
     import fcntl
     os.makedirs(BUILD, exist_ok=True)
-    lock = open(os.path.join(BUILD, ".lock"), "w")
+    target = TARGET + ("-" + features.replace(",", "_") if features else "")
+    lock = open(os.path.join(BUILD, ".lock" + ("-" + features.replace(",", "_") if features else "")), "w")
     fcntl.flock(lock, fcntl.LOCK_EX)
     try:
-        env = dict(os.environ, CARGO_TARGET_DIR=TARGET, CARGO_NET_OFFLINE="true")
+        env = dict(os.environ, CARGO_TARGET_DIR=target, CARGO_NET_OFFLINE="true")
         env.pop("RUSTFLAGS", None)
         t0 = time.time()
-        p = subprocess.run(["cargo", "+1.98.1", "build", "--offline", "-p", "revm"], cwd=REPO, env=env,
-                           capture_output=True, text=True)
+        cmd = ["cargo", "+1.98.1", "build", "--offline", "-p", "revm"] + (["--features", features] if features else [])
+        p = subprocess.run(cmd, cwd=REPO, env=env, capture_output=True, text=True)
         if p.returncode != 0:
             return None, p.stderr[-4000:]
-        deps = os.path.join(TARGET, "debug", "deps")
+        deps = os.path.join(target, "debug", "deps")
         ext = {}
         for crate in ("revm", "revm_interpreter", "revm_primitives", "revm_precompile"):
             c = [f for f in os.listdir(deps) if re.fullmatch(rf"lib{crate}-[0-9a-f]+\.rlib", f)]
